@@ -100,7 +100,7 @@ func oneSharedCachedList(r *vkit.Run, s *srv, idx int) (goOn bool) {
 			// a profile without custom rules
 			q.Profile = &profile{ID: "spare-" + name, Idx: 7, Enabled: false, Ver: 1}
 		}
-		return q
+		return q.fix()
 	}
 	profiles := []*requester{
 		mk("profile1[vs_shared,vs_allow,vs_extra]", true, "vs_shared", "vs_allow", "vs_extra"),
